@@ -124,7 +124,7 @@ theorem dtick_invN {inp : RunInput} {s s' : Sys} {perm : List Name} (hnc : NoCal
 
 /-! ### `_update_waiting` -/
 
-theorem wakeOne_invN {inp : RunInput} {s : Sys} {pst : RS} {p w : Name} {nd : Node} (h : InvN inp s)
+theorem wakeOne_invN {inp : RunInput} [NoFailDeliver inp] {s : Sys} {pst : RS} {p w : Name} {nd : Node} (h : InvN inp s)
     (hw : s.nodes w = some nd) (hp : stOf s p = pst) (hcr : wakeCrash p nd = false) :
     InvN inp (wakeOne inp s pst p w nd) ∧ (∀ x, stOf (wakeOne inp s pst p w nd) x = stOf s x) := by
   have hS := h w nd hw
@@ -136,12 +136,12 @@ theorem wakeOne_invN {inp : RunInput} {s : Sys} {pst : RS} {p w : Name} {nd : No
     · rw [hS.noC.2.2] at x; cases x
   have hst : ∀ x, stOf (setNode s w (wokenNode inp pst p nd)) x = stOf s x := stOf_setNode_same hw hu.status
   have h1 : InvN inp (setNode s w (wokenNode inp pst p nd)) := invN_setNode h hw hu.status (wokenNode_S hS hin hp)
-  unfold wakeOne
+  rw [wakeOne_eq (inp := inp)]
   split
   · exact ⟨invN_congr h1 rfl, hst⟩
   · exact ⟨h1, hst⟩
 
-theorem updateWaiting_invN {inp : RunInput} {pst : RS} {p : Name} :
+theorem updateWaiting_invN {inp : RunInput} [NoFailDeliver inp] {pst : RS} {p : Name} :
     ∀ (perm : List Name) (s s' : Sys), InvN inp s → stOf s p = pst → updateWaiting inp pst p s perm = some s' →
       InvN inp s' := by
   intro perm
@@ -174,7 +174,7 @@ theorem sendHead_invN {inp : RunInput} {s : Sys} {p : Name} {nd : Node} (h : Inv
     exact stOf_setNode_same (x := { nd with waitSelect := false }) hn rfl x
   · exact ⟨invN_congr h rfl, fun _ => rfl⟩
 
-theorem send_invN {inp : RunInput} {s s' : Sys} {processed : Option Name} {perm : List Name} (h : InvN inp s)
+theorem send_invN {inp : RunInput} [NoFailDeliver inp] {s s' : Sys} {processed : Option Name} {perm : List Name} (h : InvN inp s)
     (hs : send inp s processed perm = some s') : InvN inp s' := by
   unfold send at hs
   cases processed with
